@@ -47,6 +47,7 @@ type PipeEnd struct {
 	nwrites     int
 	nonblock    bool
 	closes      int
+	Injected    int // injected write failures so far
 	OnClose     func()
 	wRead       string
 	wWrite      string
@@ -130,6 +131,9 @@ func (e *PipeEnd) WriteMessage(b []byte) error {
 	if e.WriteFaults == 0 || e.WriteFaults == e.nwrites {
 		if vs.Choose(vs.KEnv, 2) == 1 {
 			vs.Logf("%s: write %d fails (injected)", e, e.nwrites)
+			e.Injected++
+			// a failed write means the connection is broken: the link dies with it
+			p.dead = true
 			return errInjectedWrite
 		}
 	}
